@@ -64,6 +64,8 @@ def script_of(h):
             pending = False
         elif op == "err":
             ops.append("call %s err #%d #%d" % (o, s["i"], s["kind"]))
+        elif op == "use":
+            ops.append("call %s use #%d #%d" % (o, s["i"], s["kind"]))
         elif op == "dest":
             ops.append("call %s dest" % o)
             alive[s["o"]] = False
